@@ -218,6 +218,9 @@ class Effects:
             fn = e.func
             d = norm(fn)
             if isinstance(fn, ast.Attribute):
+                if fn.attr == "astype" and any(k.arg == "copy" and isinstance(k.value, ast.Constant) and k.value.value is False for k in e.keywords):
+                    # astype(..., copy=False) returns the array itself when the dtype already matches
+                    return self.roots(fn.value, f, amap, depth + 1) | {FRESH}
                 if fn.attr in COPY_METHODS:
                     return {FRESH}
                 if fn.attr in VIEW_METHODS:
